@@ -85,6 +85,7 @@ class Evaluator:
         self.term_type: Dict[int, ClassInfo] = {}  # types of params etc.
         self.callback_params: set = set()
         self.projection_of: Dict[int, List[T]] = {}
+        self.projection_acc: Dict[int, List[tuple]] = {}  # r.id -> [(src, ("attr", name) | ("proj", i))]
         self.ext_calls: List[tuple] = []
         self.instance_attrs: Dict[str, T] = {}  # optional: values of self.<name> established by __init__
         self.bindings: List[tuple] = []       # (callee, param name, argument term, caller frame func, node)
@@ -182,16 +183,16 @@ class Evaluator:
             if all(a is alts[0] for a in alts):
                 return alts[0]
             if not any(a.kind == "fn" for a in alts):
-                return self._proj_of(mk("choice", v.args[0], v.args[1], alts), v)
+                return self._proj_of(mk("choice", v.args[0], v.args[1], alts), v, ("attr", name))
         if k == "phi" and name not in ARRAY_METHODS:
             alts = [self.mk_attr(a, name, frame) for a in v.args[0]]
             if not any(a.kind == "fn" for a in alts):
-                return self._proj_of(self.mk_phi(alts), v)
+                return self._proj_of(self.mk_phi(alts), v, ("attr", name))
         if k in ("batched", "elem", "loopin", "leaf") and v.args[0].kind in ("construct", "update"):
             inner = self.mk_attr(v.args[0], name, frame)
-            return self._proj_of(self.wrap(k, inner, v), v)
+            return self._proj_of(self.wrap(k, inner, v), v, ("attr", name))
         if k == "loop":
-            return self._proj_of(mk("loop", self.mk_attr(v.args[0], name, frame), self.mk_attr(v.args[1], name, frame)), v)
+            return self._proj_of(mk("loop", self.mk_attr(v.args[0], name, frame), self.mk_attr(v.args[1], name, frame)), v, ("attr", name))
         if k == "cls":
             ci = self.tree.classes.get(v.args[0])
             if ci is not None:
@@ -223,13 +224,15 @@ class Evaluator:
         elif v.kind == "attr" and v.args[0].kind == "self":
             # collaborator with several candidate classes: properties are not inlined
             pass
-        return self._proj_of(mk("attr", v, name), v)
+        return self._proj_of(mk("attr", v, name), v, ("attr", name))
 
-    def _proj_of(self, r: T, src: T) -> T:
+    def _proj_of(self, r: T, src: T, acc=None) -> T:
         """Remember that r is a projection (field / element) of src -- used by the stale-read rule to
         recognise pieces of a value after attribute access has been distributed over a selection."""
         if r is not src and r.kind not in ("const", "ext", "cls", "mod", "self", "param"):
             self.projection_of.setdefault(r.id, []).append(src)
+            if acc is not None:
+                self.projection_acc.setdefault(r.id, []).append((src, acc))
         return r
 
     def wrap(self, kind: str, inner: T, like: Optional[T] = None) -> T:
@@ -307,16 +310,16 @@ class Evaluator:
                 if -len(fs) <= i < len(fs):
                     return fs[i][1]
         if k == "choice":
-            return self._proj_of(self.mk_choice(v.args[0], v.args[1], [self.mk_proj(a, i, n) for a in v.args[2]]), v)
+            return self._proj_of(self.mk_choice(v.args[0], v.args[1], [self.mk_proj(a, i, n) for a in v.args[2]]), v, ("proj", i))
         if k == "phi":
-            return self._proj_of(self.mk_phi([self.mk_proj(a, i, n) for a in v.args[0]]), v)
+            return self._proj_of(self.mk_phi([self.mk_proj(a, i, n) for a in v.args[0]]), v, ("proj", i))
         if k in ("batched", "elem", "leaf"):
-            return self._proj_of(self.wrap(k, self.mk_proj(v.args[0], i, n)), v)
+            return self._proj_of(self.wrap(k, self.mk_proj(v.args[0], i, n)), v, ("proj", i))
         if k == "loop":
-            return self._proj_of(mk("loop", self.mk_proj(v.args[0], i, n), self.mk_proj(v.args[1], i, n)), v)
+            return self._proj_of(mk("loop", self.mk_proj(v.args[0], i, n), self.mk_proj(v.args[1], i, n)), v, ("proj", i))
         if k == "loopin":
-            return self._proj_of(mk("loopin", self.mk_proj(v.args[0], i, n), v.args[1]), v)
-        return self._proj_of(mk("proj", v, i), v)
+            return self._proj_of(mk("loopin", self.mk_proj(v.args[0], i, n), v.args[1]), v, ("proj", i))
+        return self._proj_of(mk("proj", v, i), v, ("proj", i))
 
     def mk_index(self, v: T, idx: T) -> T:
         if v.kind == "copy":
@@ -378,9 +381,10 @@ class Evaluator:
             except Exception:
                 pass
         if op in ("is", "isnot") and b is NONE:
-            definite = {"construct", "new", "tuple", "list", "dict", "call", "bin", "cmp", "fn", "cls",
-                        "batched", "update"}
-            if a.kind in definite:
+            # values that are certainly objects (results of calls are NOT: re.fullmatch, dict.get, ... return None)
+            definite = {"construct", "new", "tuple", "list", "dict", "bin", "cmp", "fn", "cls", "batched", "update"}
+            array_call = a.kind == "call" and a.args[0].kind == "ext" and a.args[0].args[0].split(".")[0] in ("jax", "numpy", "chex")
+            if a.kind in definite or array_call:
                 return const(op == "isnot")
         d = DUNDER.get(op)
         if d is not None:
